@@ -196,7 +196,9 @@ def tiny_reach_games():
     5: a genuinely dead sibling so that pruning has something to remove."""
     for e1, e2 in ((1e-4, 1e-3), (1e-3, 1e-3), (1e-2, 1e-5), (1e-5, 1e-4), (0.5, 1e-6), (1e-3, 5e-4),
                    # live probability mass of a single state below 1e-9 (its value stays positive)
-                   (2.0 ** -34, 0.5), (1e-12, 0.5), (1e-10, 1e-3)):
+                   (2.0 ** -34, 0.5), (1e-12, 0.5), (1e-10, 1e-3),
+                   # values below the machine epsilon, near the bottom of the float range, and subnormal live mass
+                   (1e-9, 1e-9), (1e-160, 1e-150), (1e-200, 0.5), (1e-310, 0.5), (5e-324, 1.0)):
         for owner0 in (PR, P1, P2):
             for rx, ry in ((3, 5), (0, 7), (2.5, 0)):
                 if owner0 == PR:
